@@ -702,6 +702,10 @@ def c15(tier, seed):
                      {"kind": "histogram", "reject": rej[0], "seed": seed, "tables_file": out, "L": L, "cells": K})
     elif not acc:
         raise ToolError("C15: TLC failed on the histogram predicate:\n" + text[-2500:])
+    # the same through the numpy environment of the Python layer: several cancellations / orders submitted in one array
+    # call are queued in the order given, and the same seed and calls give the same processing order again
+    py_env_gen(ck, "py_numpy_same_seed", mode="numpy", seeds=3 if q else 8, StepSize=4, Ops=["new", "cancel", "step"], Kinds=["L"], Prices=[10, 11], Vols=[1],
+               MaxSubmits=4 if q else 5, MaxBatch=3, MaxSteps=2, MaxOrders=2 if q else 3, need=("has_cancel", "multi_step", "schedule_matters"), timeout=400 if q else 1800)
     ck.states += tl["distinct"] + sum(math.factorial(n) for n in range(1, 7))
     ck.transitions += summ["steps"]
     ck.traces += summ["steps"]
